@@ -347,6 +347,25 @@ func (L *layoutCtx) segs(v ssa.Value) [][]Seg {
 				return left
 			}
 			return cross(left, right)
+		case strings.HasSuffix(name, "AppendUint16") || strings.HasSuffix(name, "AppendUint32") || strings.HasSuffix(name, "AppendUint64"):
+			// binary.BigEndian.AppendUintN(b, v): b followed by the N/8 bytes of v
+			args := x.Call.Args
+			if len(args) < 2 {
+				break
+			}
+			w := map[byte]int{'6': 2, '2': 4, '4': 8}[name[len(name)-1]]
+			var left [][]Seg
+			if isNilConst(args[len(args)-2]) {
+				left = [][]Seg{{}}
+			} else {
+				left = L.segs(args[len(args)-2])
+			}
+			k, nm := L.classifyVal(args[len(args)-1])
+			sg := Seg{Kind: k, W: w, Name: nm}
+			if k == "computed" {
+				sg.Expr = nm
+			}
+			return cross(left, one(sg))
 		case name == "slices.Clip" || name == "slices.Clone" || name == "bytes.Clone":
 			return L.segs(x.Call.Args[0])
 		case name == "(*bytes.Buffer).Bytes":
@@ -371,7 +390,30 @@ func (L *layoutCtx) segs(v ssa.Value) [][]Seg {
 		}
 		for _, e := range x.Edges {
 			if c, ok := e.(*ssa.Call); ok && calleeName(&c.Call) == "builtin.append" && c.Call.Args[0] == ssa.Value(x) {
-				return one(Seg{Kind: "each", W: -1, Name: "loop"})
+				// an accumulation loop: what the buffer held before the loop, then one piece per iteration
+				L.seen[x] = true
+				init := [][]Seg{}
+				for _, e2 := range x.Edges {
+					if e2 == e {
+						continue
+					}
+					if isNilConst(e2) {
+						init = append(init, []Seg{})
+					} else if mk, isMk := e2.(*ssa.MakeSlice); isMk {
+						if n, isC := constInt(mk.Len); isC && n == 0 {
+							init = append(init, []Seg{})
+						} else {
+							init = append(init, L.segs(e2)...)
+						}
+					} else {
+						init = append(init, L.segs(e2)...)
+					}
+				}
+				delete(L.seen, x)
+				if len(init) == 0 {
+					init = [][]Seg{{}}
+				}
+				return cross(dedupAlts(init), one(Seg{Kind: "each", W: -1, Name: "loop"}))
 			}
 		}
 		L.seen[x] = true
@@ -1056,11 +1098,23 @@ func (R *Run) checkPrefixes(extracted map[string][][]Seg, all map[string]specObj
 		eachInstr(fn, func(ins ssa.Instruction) {
 			var fa *ssa.FieldAddr
 			var val ssa.Value
+			direct := false // val is the measured integer itself rather than bytes filled by PutUintNN
 			switch x := ins.(type) {
 			case *ssa.Store:
 				f, ok := x.Addr.(*ssa.FieldAddr)
 				if !ok {
-					return
+					// the prefix spelled out byte by byte: F[0] = byte(V >> 8); F[1] = byte(V)
+					if ia, isIA := x.Addr.(*ssa.IndexAddr); isIA {
+						if f2, isF := ia.X.(*ssa.FieldAddr); isF {
+							if v, lo := bytePairInto(fn, f2); lo == x {
+								fa, val, direct = f2, v, true
+							}
+						}
+					}
+					if fa == nil {
+						return
+					}
+					break
 				}
 				fa, val = f, x.Val
 			case *ssa.Call:
@@ -1093,6 +1147,15 @@ func (R *Run) checkPrefixes(extracted map[string][][]Seg, all map[string]specObj
 			// whole-struct literal zeroing (composite literal init) has const value
 			nW++
 			measured := P.measuredBy(val)
+			if direct {
+				measured = ""
+				mv := stripConv(val)
+				if c, ok := mv.(*ssa.Call); ok && calleeName(&c.Call) == "builtin.len" {
+					measured = P.lengthOrigin(c.Call.Args[0])
+				} else if _, isConst := mv.(*ssa.Const); !isConst {
+					measured = "int:" + mv.Name()
+				}
+			}
 			// the data stored in the same function
 			var dataSyms []string
 			eachInstr(fn, func(i2 ssa.Instruction) {
